@@ -1430,8 +1430,9 @@ impl Schedule {
         depot_usage: &DepotUsage,
     ) -> Tour {
         let first_non_depot = tour.first_non_depot().unwrap();
-        let new_start_depot =
-            self.find_best_start_depot_for_spawning(vehicle_type_idx, first_non_depot, depot_usage);
+        let new_start_depot = self
+            .find_best_start_depot_for_spawning(vehicle_type_idx, first_non_depot, depot_usage)
+            .expect("The depot of the old tour should be available.");
         let intermediate_tour = if new_start_depot != tour.start_depot().unwrap() {
             tour.replace_start_depot(new_start_depot).unwrap()
         } else {
@@ -1463,6 +1464,12 @@ impl Schedule {
         {
             // if given depot is not available, use overflow depot
             let overflow_depot_ids = self.network.overflow_depot_idxs();
+            if !self.can_depot_spawn_vehicle(overflow_depot_ids.1, vehicle_type_idx) {
+                return Err(format!(
+                    "Cannot spawn vehicle of type {}. No depot available (not even the overflow depot).",
+                    vehicle_type_idx
+                ));
+            }
             nodes[0] = overflow_depot_ids.1;
             if self.network.node(last_node).is_depot() {
                 let tour_len = nodes.len();
@@ -1487,7 +1494,7 @@ impl Schedule {
                 vehicle_type_idx,
                 first_node,
                 &self.depot_usage,
-            );
+            )?;
             nodes.insert(0, new_start_depot);
         }
 
@@ -1507,7 +1514,7 @@ impl Schedule {
         vehicle_type_idx: VehicleTypeIdx,
         first_node: NodeIdx,
         depot_usage: &DepotUsage,
-    ) -> NodeIdx {
+    ) -> Result<NodeIdx, String> {
         let start_location = self.network.node(first_node).start_location();
         let start_depot = self
             .network
@@ -1517,7 +1524,12 @@ impl Schedule {
             .find(|depot| {
                 self.can_depot_spawn_vehicle_custom_usage(*depot, vehicle_type_idx, depot_usage)
             })
-            .expect("There should be at least the overflow depot available.");
+            .ok_or_else(|| {
+                format!(
+                    "Cannot spawn vehicle of type {}. No depot available (not even the overflow depot).",
+                    vehicle_type_idx
+                )
+            })?;
         /* if start_depot == self.network.overflow_depot_ids().1 {
             println!(
                 "\x1b[93mwarning:\x1b[0m Tour for vehicle_type {} violates depot constraints at {}. Using overflow depot instead.",
@@ -1525,7 +1537,7 @@ impl Schedule {
                 self.network.node(first_node)
             );
         } */
-        start_depot
+        Ok(start_depot)
     }
 
     fn find_best_end_depot_for_despawning(
